@@ -374,6 +374,18 @@ Definition renders_call (e : mock_error) : bool :=
   end.
 Definition debug_runs (act : action) : N := match act with ActPanic e => if renders_call e then 1 else 0 | _ => 0 end.
 
+(* user code that panics inside the Debug impl of an argument (harness convention: DB::db, argument 13).  The rendering is made
+   when the error VALUE is built (src/eval.rs fn_call()), i.e. after everything the call does to the counters and the ordered
+   index and before the error is handed to handle_error / induce_panic: the user's panic leaves the call, nothing is recorded *)
+Definition dbg_panicky (m a : N) : bool := (m =? 40) && (a =? 13).
+Definition debug_panics (cfg : config) (s : state) (m a : N) : option state :=
+  if dbg_panicky m a then
+    match eval_raw hinfo N haccepts hdebug cfg s m a with
+    | (s1, OutErr e) => if renders_call e then Some s1 else None
+    | _ => None
+    end
+  else None.
+
 Definition show_trace (t : list (N * bool)) : string :=
   " M[" ++ join "," (map (fun '(d, diag) => dec d ++ (if diag : bool then "d" else "")) t) ++ "]".
 
@@ -398,9 +410,13 @@ Definition step_core (w : world) (e : event) : world * string :=
       match matcher_panics (w_cfg w) (w_state w) m a with
       | Some s' => (set_state w s', "P:user:matcher")
       | None =>
+        match debug_panics (w_cfg w) (w_state w) m a with
+        | Some s' => (set_state w s', "P:user:debug")
+        | None =>
         let '(s', act) := call hinfo N haccepts hdebug (w_cfg w) (w_state w) m a in
         (after_call w i it s' act, show_call w m a act ++ show_trace (matcher_trace (w_cfg w) (w_state w) m a)
                                    ++ (if m =? 40 then " D" ++ dec (debug_runs act) else ""))
+        end
       end
     end
   | BCallOwn i m a =>
